@@ -7,7 +7,7 @@
    snapshot carries the configuration of its index. The pinset of a member follows C01 (clean ops). *)
 From V Require Import Base.Common Model.C01_RaftLog Proofs.C01_RaftLog Model.C17_Members Proofs.C17_Members.
 From V Require Model.C03_Alloc Model.C04_ClusterOps Proofs.C04_ClusterOps Model.C10_Repin Proofs.C10_Repin Model.C14_Backup
-  Model.C17_Cluster Proofs.C17_Cluster.
+  Model.C17_Cluster Model.C17_ClusterCheck Proofs.C17_Cluster.
 Open Scope N_scope.
 
 (* AddPeer: the log only grows, no other peer's membership changes, and success means the peer is a member *)
@@ -229,6 +229,13 @@ Theorem repinning_disabled_only_removes s caller q target o os : aget caller (cs
   (forall x, In x (mem_trace (cs_clock s) (cs_lg s) (fst m)) -> x = (cs_clock s, TRm target)).
 Proof. exact (remove_disabled_l s caller q target o os). Qed.
 Print Assumptions repinning_disabled_only_removes.
+
+(* the boolean form evaluated on what the implementation logged during one PeerRemove call is sound: re-pins by the caller
+   first, then at most the configuration entry of the removed peer *)
+Theorem remove_order_okb_sound caller target es : Model.C17_ClusterCheck.remove_order_ok caller target false es = true ->
+  exists cs rm, es = map (fun c => TPin c caller) cs ++ rm /\ (rm = [] \/ rm = [TRm target]).
+Proof. exact (remove_order_ok_sound caller target es). Qed.
+Print Assumptions remove_order_okb_sound.
 
 (* ---- non-vacuity: peer 0 removes peer 2, the only holder of CID 1; peer 2 is told, ticks, stops and cleans; peer 1 is
         shut down by its operator and keeps its data ---- *)
